@@ -15,7 +15,7 @@ from ..common import ancestors, resolve_single_assign, in_loop
 from ..selftest import Seed
 
 META = {
-    "technique": "lock-set (guarded-by) analysis, no-blocking-under-lock, lock-order graph, accounting pairing per critical section, ordering typestate of the worker routines",
+    "technique": "lock-set (guarded-by) analysis, no-blocking-under-lock, lock-order graph, accounting pairing per critical section, ordering typestate of the worker routines, per-file lock identity (lookup-or-create under the cache lock)",
     "level_text": "Static proof over all access sites and critical sections of the cache classes: guarded-by discipline, no blocking call or second lock under the lock, acyclic lock order, paired accounting, completion-after-I/O. These are necessary conditions of linearizability that hold for every schedule, where the thread tests only sample schedules; the ordering of histories itself is not decided.",
     "level_note": "decides the structural clause below from source; does not decide the behaviour. Trusted: `with lock:` holds the lock for its body; functions asserting lock.locked() are only correct when their callers hold it (checked at every call site); executor.submit does not block; Future.result() blocks.",
     "explanation": (
